@@ -71,8 +71,8 @@ func (e *Env) typeByName(n string) types.Type {
 	if n == "u64s" {
 		return types.NewSlice(tUint64)
 	}
-	if n == "error" {
-		return types.Universe.Lookup("error").Type()
+	if n == "error" || n == "any" {
+		return types.Universe.Lookup(n).Type()
 	}
 	if strings.HasPrefix(n, "ptr_") {
 		inner := strings.ReplaceAll(n[4:], "_DOT_", ".")
@@ -729,6 +729,39 @@ func (e *Env) call(x *SExpr) Val {
 		}
 		a, b := e.relL.tr(x.Args[0]), e.relR.tr(x.Args[0])
 		return Val{T: tBool, S: e.equal(a, b)}
+	case "str":
+		// str(b): the string made of the bytes of slice b (what string(b) yields in the current state)
+		v := e.tr(x.Args[0])
+		if kindOf(v.T) == KStr {
+			return v
+		}
+		if kindOf(v.T) != KSlice {
+			return e.errorf("str of non-slice")
+		}
+		return Val{T: types.Typ[types.String], S: fc.bytesStr(e.state, v)}
+	case "haskey", "mapget":
+		// haskey(m, k): k is a key of map m; mapget(m, k): the value stored for k (scalar-valued maps)
+		if len(x.Args) != 2 {
+			return e.errorf("%s(m, k)", x.Name)
+		}
+		v := e.tr(x.Args[0])
+		k := e.tr(x.Args[1])
+		dom, val, _, scalarV := fc.mapArrs(v.T, v.S)
+		if dom == "" {
+			return e.errorf("%s: unsupported map type", x.Name)
+		}
+		mt := v.T.Underlying().(*types.Map)
+		ks := k.S
+		if kindOf(mt.Key()) == KInt {
+			ks = e.coerce(k, mt.Key()).S
+		}
+		if x.Name == "haskey" {
+			return Val{T: tBool, S: sx("select", sx("select", e.state.get(dom), v.S), ks)}
+		}
+		if !scalarV {
+			return e.errorf("mapget: values of this map type are not modelled")
+		}
+		return Val{T: mt.Elem(), S: sx("select", sx("select", e.state.get(val), v.S), ks)}
 	case "mapdom", "mapval":
 		// mapdom(m) / mapval(m): the key set / value table of map m as a whole (for equalities between runs)
 		v := e.tr(x.Args[0])
@@ -1015,6 +1048,8 @@ func (fc *FnCtx) sfSort(t string) string {
 		return "(Array " + fc.m.idxSort() + " " + fc.m.intSort(tUint64) + ")"
 	case "rowref":
 		return "(Array " + fc.m.idxSort() + " Int)"
+	case "rowstr":
+		return "(Array " + fc.m.idxSort() + " Str)"
 	case "u64arr":
 		return "(Array Int " + fc.m.intSort(tUint64) + ")"
 	case "refarr", "setarr":
@@ -1245,7 +1280,7 @@ func (e *Env) bufEmpty(ref string, bt types.Type) string {
 
 func isArrParam(t string) bool {
 	switch t {
-	case "row8", "row64", "rowref", "u64arr", "refarr", "setarr":
+	case "row8", "row64", "rowref", "rowstr", "u64arr", "refarr", "setarr":
 		return true
 	}
 	return false
@@ -1257,6 +1292,8 @@ func arrParamElem(t string) types.Type {
 		return tByte
 	case "row64", "u64arr":
 		return tUint64
+	case "rowstr":
+		return tString
 	}
 	return tRef
 }
